@@ -20,9 +20,9 @@ import (
 	"time"
 
 	"github.com/prometheus/client_golang/prometheus"
-	"github.com/relex/gotils/promexporter/promext"
 	"github.com/relex/gotils/channels"
 	"github.com/relex/gotils/logger"
+	"github.com/relex/gotils/promexporter/promext"
 	"github.com/relex/slog-agent/base"
 	"github.com/relex/slog-agent/input/tcplistener"
 	"github.com/relex/slog-agent/run"
